@@ -137,7 +137,8 @@ class Ctx:
         if deque:
             jopts.append("-Dtlc2.tool.queue.IStateQueue=StateDeque")
         cmd = ["java"] + jopts + ["-cp", JAR_CP, "tlc2.TLC", "-workers", str(workers),
-                                  "-metadir", meta, "-cleanup", "-noGenerateSpecTE"]
+                                  "-metadir", meta, "-cleanup", "-noGenerateSpecTE",
+                                  "-checkpoint", "0"]       # no checkpoints: StateDeque (trace validation) cannot write them
         if not deadlock:
             pass  # deadlock checking is governed by CHECK_DEADLOCK in the cfg
         if cfg:
